@@ -63,14 +63,23 @@ func vfKnownNI(name string) string {
 
 type vfGen struct {
 	nextID uint64
+	// fixLow: next-hops and groups of the pre-state live in the default instance
+	fixLow bool
 	// rich: pre-state operations also vary the presence of optional payload fields
 	rich bool
 }
 
 func (g *vfGen) id() uint64 { g.nextID++; return g.nextID }
 
+func (g *vfGen) lowNI(name string) string {
+	if g.fixLow {
+		return "DEFAULT"
+	}
+	return vfKnownNI(name)
+}
+
 func (g *vfGen) nh(name string) *vfOpD {
-	d := &vfOpD{id: g.id(), typ: vfADD, kind: vfKNH, ni: vfKnownNI(name), idx: vfU64(name + ".idx"), hasBody: true}
+	d := &vfOpD{id: g.id(), typ: vfADD, kind: vfKNH, ni: g.lowNI(name), idx: vfU64(name + ".idx"), hasBody: true}
 	if g.rich && vfBool(name+".hasTag") {
 		d.hasTag, d.tag = true, vfStrK(name+".tag", "ni")
 	}
@@ -78,7 +87,7 @@ func (g *vfGen) nh(name string) *vfOpD {
 }
 
 func (g *vfGen) nhg(name string, maxMembers int) *vfOpD {
-	d := &vfOpD{id: g.id(), typ: vfADD, kind: vfKNHG, ni: vfKnownNI(name), idx: vfU64(name + ".id"), hasBody: true}
+	d := &vfOpD{id: g.id(), typ: vfADD, kind: vfKNHG, ni: g.lowNI(name), idx: vfU64(name + ".id"), hasBody: true}
 	n := vfInt(name+".nm", 0, maxMembers)
 	for i := 0; i < n; i++ {
 		m := vfMember{idx: vfU64(name + ".m.idx")}
@@ -119,7 +128,18 @@ func (g *vfGen) top(name string, kind int) *vfOpD {
 
 // any: a fully symbolic operation (kind, type, instance name, key, payload, references).
 func (g *vfGen) any(name string, maxMembers int) *vfOpD {
-	d := &vfOpD{id: g.id(), typ: vfInt(name+".typ", 1, 3), kind: vfInt(name+".kind", 0, 4), ni: vfStrK(name+".ni", "ni")}
+	return g.anyOf(name, maxMembers, 1, 3, nil)
+}
+
+// anyOf: as any, with the operation type in [typLo,typHi] and the kind drawn from kinds (nil: all five).
+func (g *vfGen) anyOf(name string, maxMembers, typLo, typHi int, kinds []int) *vfOpD {
+	kind := 0
+	if kinds == nil {
+		kind = vfInt(name+".kind", 0, 4)
+	} else {
+		kind = kinds[vfInt(name+".kind", 0, len(kinds)-1)]
+	}
+	d := &vfOpD{id: g.id(), typ: vfInt(name+".typ", typLo, typHi), kind: kind, ni: vfStrK(name+".ni", "ni")}
 	d.hasBody = vfBool(name + ".hasBody")
 	switch d.kind {
 	case vfKV4:
@@ -202,4 +222,59 @@ func vfCanonical(r *RIB, ref *vfRef, g *vfGen, c vfPreCfg) {
 		}
 	}
 	ref.compare(r)
+}
+
+// vfRunCfg describes one harness of the RIB family.
+type vfRunCfg struct {
+	fwdBoth  bool // explore both "forward references allowed" and "disallowed"
+	noFwd    bool // forward references disallowed (when !fwdBoth)
+	pre      vfPreCfg
+	rich     bool
+	fixLow   bool
+	steps    int
+	members  int
+	typLo    int
+	typHi    int
+	kinds    []int
+	mapOrder bool // nondeterministic map iteration order (held-operation walk)
+}
+
+// vfRIBRun: canonical pre-state + symbolic steps, each answer checked against
+// the reference and the full state compared after every step.
+func vfRIBRun(c vfRunCfg) {
+	fwd := !c.noFwd
+	if c.fwdBoth {
+		fwd = vfBool("forward-references")
+	}
+	r, ref := vfNewPair(fwd)
+	g := &vfGen{rich: c.rich, fixLow: c.fixLow}
+	pre := c.pre
+	if !fwd {
+		pre.nHeld = 0
+	}
+	if c.mapOrder {
+		vfMapOrder(true)
+	}
+	vfCanonical(r, ref, g, pre)
+	vfReach("pre-built")
+	typLo, typHi := c.typLo, c.typHi
+	if typLo == 0 {
+		typLo, typHi = 1, 3
+	}
+	for i := 0; i < c.steps; i++ {
+		d := g.anyOf("op", c.members, typLo, typHi, c.kinds)
+		st := vfSubmit(r, ref, d)
+		ref.compare(r)
+		switch st {
+		case vfStAcked:
+			vfReach("acked")
+		case vfStFailed:
+			vfReach("failed")
+		case vfStHeld:
+			vfReach("held")
+		case vfStErr:
+			vfReach("error")
+		}
+	}
+	vfReach("end")
 }
